@@ -18,6 +18,7 @@ STUBS = [
     "np.zeros/ones/empty/full/array/asarray/linspace/zeros_like/ones_like/arange -> object arrays when dtype is float/unspecified",
     "np.isscalar/isclose/allclose/abs/amax/amin/max/min/maximum/minimum/sqrt/exp/cos/sin/floor/ceil/log2/sign/where/argmax/argsort/sort/isinf/isnan/float64 -> proxy-aware versions with identical semantics on reals",
     "math.isclose/isinf/sqrt/exp/cos/sin/floor/ceil/log2/pow/fabs -> proxy-aware versions (transcendentals uninterpreted: congruence only)",
+    "numpy.linalg.solve with a symbolic right-hand side -> exact rational Gaussian elimination (contract: solution of the system; singular -> LinAlgError)",
     "numpy.linalg.norm (ord inf/1/2) -> proxy-aware version (2-norm of a vector through sqrt as a fresh non-negative root)",
     "print, logging output of the library -> silenced",
     "scipy.interpolate.interpn -> reference multilinear interpolant over object arrays (validated against scipy at each run)",
@@ -66,7 +67,9 @@ def _boolify(a):
 
 
 def _is_float_dtype(dtype):
-    if dtype is None or dtype is float or dtype is object:
+    if dtype is object:
+        return False  # explicit object arrays keep numpy's semantics (np.empty -> None entries)
+    if dtype is None or dtype is float:
         return True
     try:
         return _np.issubdtype(_np.dtype(dtype), _np.floating)
@@ -196,6 +199,8 @@ class NPFacade(types.ModuleType):
         super().__init__('numpy_facade')
 
     def __getattr__(self, name):
+        if name == 'linalg':
+            return _LA
         return getattr(_np, name)
 
     # ---- creation
@@ -504,6 +509,42 @@ class LAFacade(types.ModuleType):
 
     def __getattr__(self, name):
         return getattr(_np.linalg, name)
+
+    @staticmethod
+    def solve(M, b):
+        """numpy.linalg.solve contract: the solution of M x = b for a non-singular M.  With a symbolic right-hand side (and a concrete
+        matrix) the solution is computed by exact rational Gaussian elimination with pivoting, so x is an exact linear combination
+        of the entries of b; a singular matrix raises LinAlgError like numpy."""
+        if not _has_sym(b) and not _has_sym(M):
+            return _np.linalg.solve(_tofloat(_np.asarray(M)), _tofloat(_np.asarray(b)))
+        if _has_sym(M):
+            raise Unsupported('linear solve with a symbolic matrix')
+        A = [[Fraction(float(v)) for v in row] for row in _np.asarray(M, dtype=object)]
+        n = len(A)
+        bb = _np.asarray(b, dtype=object)
+        rhs = [bb[i] for i in range(n)]
+        for c in range(n):
+            piv = max(range(c, n), key=lambda r: abs(A[r][c]))
+            if A[piv][c] == 0:
+                raise _np.linalg.LinAlgError('Singular matrix')
+            A[c], A[piv] = A[piv], A[c]
+            rhs[c], rhs[piv] = rhs[piv], rhs[c]
+            for r in range(c + 1, n):
+                if A[r][c] != 0:
+                    f = A[r][c] / A[c][c]
+                    for k in range(c, n):
+                        A[r][k] -= f * A[c][k]
+                    rhs[r] = rhs[r] - rhs[c] * f
+        x = [None] * n
+        for r in range(n - 1, -1, -1):
+            acc = rhs[r]
+            for k in range(r + 1, n):
+                acc = acc - x[k] * A[r][k]
+            x[r] = acc / A[r][r]
+        out = _np.empty(bb.shape, dtype=object)
+        for i in range(n):
+            out[i] = x[i]
+        return out
 
     @staticmethod
     def norm(x, ord=None, axis=None, **kw):
